@@ -29,7 +29,7 @@ def _parse(kind, src):
     return node
 
 
-SKIP = ("sp", "attrs", "s", "global", "tokens")
+SKIP = ("sp", "attrs", "s", "global", "tokens", "ord", "ord_end")
 
 
 def _ident(n):
